@@ -124,10 +124,32 @@ class Sym:
         return ("leaf", "?", rv["k"])
 
 
+def simplify(e):
+    """Boolean identities with constants: and(x,true)=x, and(x,false)=false, or(x,false)=x, or(x,true)=true, not(const)."""
+    if not isinstance(e, tuple) or e[0] in ("const", "leaf"):
+        return e
+    if e[0] == "not":
+        a = simplify(e[1])
+        if a[0] == "const" and isinstance(a[1], bool):
+            return ("const", not a[1])
+        if a[0] == "not":
+            return a[1]
+        return ("not", a)
+    if e[0] in ("or", "and"):
+        a, b = simplify(e[1]), simplify(e[2])
+        unit = e[0] == "and"          # and: true is neutral, false absorbs; or: false neutral, true absorbs
+        for x, y in ((a, b), (b, a)):
+            if x[0] == "const" and isinstance(x[1], bool):
+                return y if x[1] == unit else ("const", x[1])
+        return (e[0], a, b)
+    return (e[0],) + tuple(simplify(x) if isinstance(x, tuple) else x for x in e[1:])
+
+
 def normalise(e):
     """Canonical text; FLAG leaves are numbered by first occurrence, comparisons
     are oriented with STEP on the left."""
     seen = {}
+    e = simplify(e)
 
     def go(x):
         if x[0] == "const":
@@ -358,7 +380,7 @@ def run(tier="quick", replay=None):
             ok = True
             got = []
             for bb, t in fcalls:
-                e = sym.operand(t["args"][3])
+                e = simplify(sym.operand(t["args"][3]))
                 got.append(normalise(e)[0])
                 if not (e[0] == "leaf" and e[1] == "FLAG" and e[2] == leaf):
                     ok = False
@@ -375,7 +397,7 @@ def run(tier="quick", replay=None):
                 if rv["k"] == "agg" and rv.get("adt") == adt:
                     sym = Sym(f, st["steps"])
                     for fld, o in zip(rv["fields"], rv["ops"]):
-                        e = sym.operand(o)
+                        e = simplify(sym.operand(o))
                         if e[0] == "leaf" and e[1] == "FLAG" and e[2] == leaf:
                             flag_field = fld
             ok = False
